@@ -17,9 +17,10 @@
 //!                          (an UPDATE that routecore parses as a message but process_update refuses
 //!                          could not be constructed: from_octets validates the NLRI; that arm of the
 //!                          loop - log, send nothing, go on - is in the model but not exercised)
-//!   T | r <unit|same|peer|gone>
+//!   T | r <unit|same|peer|gone|other>
 //!                          gate: Terminate | Reconfigure(main config changed | nothing changed |
-//!                          this peer's config changed | this peer removed)
+//!                          this peer's config changed | this peer removed | only another peer's entry
+//!                          changed: one is added, with its own hold time)
 //! When the script is over the session channel is closed.
 //! Observation: end:<process returned> used:<events taken> <one token per update> live:<keys>
 //! cmds:<Disconnect reasons sent to the session> <one q token per prefix>
@@ -140,6 +141,7 @@ pub fn run_case(line: &str) -> String {
                 "same" => bs::Reconf::Same,
                 "peer" => bs::Reconf::Peer,
                 "gone" => bs::Reconf::Gone,
+                "other" => bs::Reconf::Others,
                 x => panic!("bad reconfiguration {x}"),
             })),
             _ => panic!("bad op {:?}", op),
